@@ -641,6 +641,7 @@ def check(rep):
                 '<= 400 requests); HTTPClient.list called directly with random paths; plus scripted misbehaving servers (13 fault kinds '
                 'injected at a random reply) and every reply sequence of length <= 2 over a 62-reply alphabet (thorough; 400 sampled in quick).  distinct = (op, show_all, n, page size, filter kind[, script]); non-trivial = >= 2 requests, '
                 'or n a multiple of the page size, or a scripted fault')
+    rep.rule += "; names, prefixes and patterns include upper case and case-sensitive classes (\\\\D, \\\\S, \\\\W); an error status on any page must be the call's outcome"
     rep.assumptions = [
         'the well-behaved server is RabbitMQ as documented for paginated listings: page_count = ceil(filtered/page_size), the filter of each '
         'request is applied to that request, page outside 1..page_count (page 1 always allowed) or page_size <= 0 is a 400; the 500-item cap '
